@@ -206,7 +206,7 @@ func pkcs7Workload() {
 		}
 	}
 	// seeded remainder
-	for t := 0; t < r.Pick(20000, 400000); t++ {
+	for t := 0; t < r.Pick(300000, 5000000); t++ {
 		n := 1 + rng.IntN(40)
 		if t%50 == 0 {
 			n = 200 + rng.IntN(400)
